@@ -729,9 +729,93 @@ fn main() {
         }
     }
 
+    // --------------------------------- all interleavings of event life cycles
+    // Every stream has a life cycle (push event, open its gate, ...); ALL order-preserving merges of
+    // the life cycles of 2-3 root fields are run, with polls placed after every subset of the actions
+    // (two fields, one event each) or after every action (three fields / two events each).  Errors
+    // are recorded at nullable positions BEFORE the suspension point and AFTER it, on every stream, so
+    // the executions overlap in both nestings (A inside B, B inside A) and partially, and every order
+    // of start / error recording / completion that select_all permits occurs.
+    {
+        let patches = vec![(2usize, "a", Out::Ref(5)), (3, "a", Out::Ref(5)), (5, "name", Out::Err), (2, "name", Out::Err)];
+        let life: Vec<(&str, Vec<&str>, Vec<Vec<Act>>, u8)> = vec![
+            // error before the gate on fa, after the gate on fb
+            (
+                "subscription { fa { a { name } id } fb { a { name } id } }",
+                vec!["fa/id", "fb/a"],
+                vec![vec![push("fa", 2), open("fa", "id")], vec![push("fb", 3), open("fb", "a")]],
+                0,
+            ),
+            // errors before and after the gate on both
+            (
+                "subscription { fa { a { name } x: a { name } id } fb { a { name } x: a { name } id } }",
+                vec!["fa/x", "fb/x"],
+                vec![vec![push("fa", 2), open("fa", "x")], vec![push("fb", 3), open("fb", "x")]],
+                0,
+            ),
+            // two events per stream
+            (
+                "subscription { fa { a { name } x: a { name } id } fb { a { name } x: a { name } id } }",
+                vec!["fa/x", "fb/x"],
+                vec![vec![push("fa", 2), open("fa", "x"), push("fa", 2), open("fa", "x")], vec![push("fb", 3), open("fb", "x"), push("fb", 3), open("fb", "x")]],
+                1,
+            ),
+            // three root fields, the third with a nullable item whose failure is recorded at completion
+            (
+                "subscription { fa { a { name } x: a { name } } fb { x: a { name } id } fo { a { name } x: name } }",
+                vec!["fa/x", "fb/x", "fo/x"],
+                vec![vec![push("fa", 2), open("fa", "x")], vec![push("fb", 3), open("fb", "x")], vec![push("fo", 2), open("fo", "x")]],
+                1,
+            ),
+        ];
+        fn merges(seqs: &[Vec<Act>], pos: &mut Vec<usize>, cur: &mut Vec<Act>, out: &mut Vec<Vec<Act>>) {
+            let mut done = true;
+            for i in 0..seqs.len() {
+                if pos[i] < seqs[i].len() {
+                    done = false;
+                    cur.push(seqs[i][pos[i]].clone());
+                    pos[i] += 1;
+                    merges(seqs, pos, cur, out);
+                    pos[i] -= 1;
+                    cur.pop();
+                }
+            }
+            if done {
+                out.push(cur.clone());
+            }
+        }
+        for (doc, gated, cycles, policy) in life {
+            let mut w = small_world(&patches);
+            w.gated = gated.iter().map(|x| x.to_string()).collect();
+            let keys: Vec<String> = ["fa", "fo", "fb", "fi", "fc"].iter().map(|x| x.to_string()).collect();
+            let sc = Scenario { text: doc.to_string(), keys, fail_create: vec![] };
+            let Some(name) = em.scenario(&sc, &w) else { continue };
+            let w = Arc::new(w);
+            let mut all = vec![];
+            merges(&cycles, &mut vec![0; cycles.len()], &mut vec![], &mut all);
+            for m in all {
+                let masks: Vec<u32> = if policy == 0 { (0..(1u32 << m.len())).collect() } else { vec![(1u32 << m.len()) - 1] };
+                for mask in masks {
+                    let mut acts = vec![];
+                    for (i, a) in m.iter().enumerate() {
+                        acts.push(a.clone());
+                        if mask & (1 << i) != 0 {
+                            acts.push(Act::Poll);
+                        }
+                    }
+                    if acts.last() != Some(&Act::Poll) {
+                        acts.push(Act::Poll);
+                    }
+                    let ro = run_schedule(&schema, &sc, w.clone(), &acts);
+                    em.case(&name, &sc, &w, &acts, &ro);
+                }
+            }
+        }
+    }
+
     // ------------------------------------- bounded-exhaustive interleavings
-    // budget: about half of n; alphabets per scenario
-    let budget = a.n / 2;
+    // budget: the life cycles above plus about a third of n; alphabets per scenario
+    let budget = em.cases + a.n / 3;
     let alphas: Vec<Vec<Act>> = vec![
         vec![push("fa", 2), push("fb", 3), open("fa", "id"), Act::Poll, Act::Close(s("fa"))],
         vec![push("fo", 2), push("fi", 7), open("fo", "id"), Act::Poll, Act::Push(s("fo"), None)],
